@@ -691,6 +691,7 @@ class DiHypergraph:
                     raise XGIError("Directed edge must be a list or tuple!")
 
                 try:
+                    tail, head = list(tail), list(head)  # may be one-shot iterators
                     tail_set, head_set = set(tail), set(head)
                 except TypeError as e:
                     raise XGIError("Invalid ebunch format") from e
@@ -757,8 +758,8 @@ class DiHypergraph:
                 warn(f"uid {idx} already exists, cannot add edge {members}.")
             else:
                 try:
-                    tail = members[0]
-                    head = members[1]
+                    tail = list(members[0])  # may be one-shot iterators
+                    head = list(members[1])
                     tail_set, head_set = set(tail), set(head)
                 except TypeError as e:
                     raise XGIError("Invalid ebunch format") from e
